@@ -710,7 +710,7 @@ fn run_ops(src: &str, case: u64, ops: &[Value]) -> Vec<Value> {
 
 pub fn gen(out: &mut Out, _sub: &str) {
     let mut rng = Rng::new(out.seed ^ 0x0A05);
-    let cases = out.size(400, 8000);
+    let cases = out.size(400, 16000);
     let mut kinds: BTreeMap<String, u64> = BTreeMap::new();
     let mut feats = [0u64; 3];
     for case in 0..cases {
